@@ -28,8 +28,57 @@ static void flush_section(const char *name)
 
 static char sgnc(int v) { return v < 0 ? '-' : (v > 0 ? '+' : '0'); }
 
+// Random-stream mode ("rand"): reads lines "ax ay bx by cx cy dx dy qx qy" (integers, |v| <= 2^20) from stdin and
+// prints one line per tuple: a fixed-position string of discrete results, then the numeric results.
+//   pos 0 vecDir(a,b,c)  1 pointOnLine(a,b,c)  2 colinear(a,b,c)  3 inBetween(a,b,c) ('.' if not collinear)
+//   4 segmentIntersect(a,b,c,d)  5,6 segmentShapeIntersect(a,b,c,d,seen=0/1) as 2*result+flag
+//   7,8 inValidRegion(ig=0/1,a,b,c,d)  9 cornerSide(a,b,c,d)  10 segmentIntersectPoint code  11 rayIntersectPoint code
+//   12-14 inPoly([a;b;c;d], q', false) for q' = a, q, d   15-17 the same with countBorder = true
+//   18-20 inPolyGen([a;b;c;d], q') for q' = a, q, d
+// then: sip.x sip.y (or "- -")  ray.x ray.y (or "- -")  manhattanDist(a,b)
+static int rand_mode()
+{
+    long v[10];
+    char line[512];
+    while (fgets(line, sizeof line, stdin)) {
+        if (sscanf(line, "%ld %ld %ld %ld %ld %ld %ld %ld %ld %ld", v, v+1, v+2, v+3, v+4, v+5, v+6, v+7, v+8, v+9) != 10)
+            continue;
+        Point a(v[0], v[1]), b(v[2], v[3]), c(v[4], v[5]), d(v[6], v[7]), q(v[8], v[9]);
+        std::string o;
+        int vd = vecDir(a, b, c);
+        o.push_back(sgnc(vd));
+        o.push_back(pointOnLine(a, b, c) ? '1' : '0');
+        o.push_back(colinear(a, b, c) ? '1' : '0');
+        o.push_back(vd == 0 ? (inBetween(a, b, c) ? '1' : '0') : '.');
+        o.push_back(segmentIntersect(a, b, c, d) ? '1' : '0');
+        for (int seen = 0; seen < 2; ++seen) {
+            bool s = seen;
+            bool r = segmentShapeIntersect(a, b, c, d, s);
+            o.push_back('0' + (r ? 2 : 0) + (s ? 1 : 0));
+        }
+        for (int ig = 0; ig < 2; ++ig) o.push_back(inValidRegion(ig, a, b, c, d) ? '1' : '0');
+        o.push_back(sgnc(cornerSide(a, b, c, d)));
+        double sx = -77, sy = -77, rx = -77, ry = -77;
+        int sc = segmentIntersectPoint(a, b, c, d, &sx, &sy);
+        int rc = rayIntersectPoint(a, b, c, d, &rx, &ry);
+        o.push_back('0' + sc);
+        o.push_back('0' + rc);
+        Polygon poly(4);
+        poly.ps[0] = a; poly.ps[1] = b; poly.ps[2] = c; poly.ps[3] = d;
+        const Point *qs[3] = { &a, &q, &d };
+        for (int cb = 0; cb < 2; ++cb) for (int k = 0; k < 3; ++k) o.push_back(inPoly(poly, *qs[k], cb) ? '1' : '0');
+        for (int k = 0; k < 3; ++k) o.push_back(inPolyGen(poly, *qs[k]) ? '1' : '0');
+        fputs(o.c_str(), stdout);
+        if (sc == DO_INTERSECT) printf(" %.17g %.17g", sx, sy); else printf(" - -");
+        if (rc == DO_INTERSECT) printf(" %.17g %.17g", rx, ry); else printf(" - -");
+        printf(" %.17g\n", manhattanDist(a, b));
+    }
+    return 0;
+}
+
 int main(int argc, char **argv)
 {
+    if (argc > 1 && strcmp(argv[1], "rand") == 0) return rand_mode();
     if (argc > 1) G = atoi(argv[1]);
     if (argc > 2) GP = atoi(argv[2]);
     std::vector<Point> pts;
@@ -101,6 +150,14 @@ int main(int argc, char **argv)
     printf("## manhattanDist 0\n");
     for (size_t i = 0; i < n; ++i) for (size_t j = 0; j < n; ++j)
         printf("%.17g\n", manhattanDist(pts[i], pts[j]));
+
+    // projection(a, b, c): foot of the perpendicular from b onto line a-c, for a != c
+    printf("## projection_xy 0\n");
+    for (size_t i = 0; i < n; ++i) for (size_t j = 0; j < n; ++j) for (size_t k = 0; k < n; ++k)
+        if (!(pts[i] == pts[k])) {
+            Point p = projection(pts[i], pts[j], pts[k]);
+            printf("%zu %zu %zu %.17g %.17g\n", i, j, k, p.x, p.y);
+        }
 
     // polygons: all triangles and quadrilaterals (any vertex order, incl. degenerate) on the GP grid
     std::vector<Point> pp;
